@@ -57,7 +57,7 @@ def lib_text(tag, k):
 
 def explore(ctx):
     h = common.hexs
-    n = 500 if ctx.quick else 10000
+    n = 1200 if ctx.quick else 10000
     cases = []
     meta = []
     dist = {}
